@@ -165,12 +165,19 @@ func legacyCalls(r *gen.Rand, res *c17Result) {
 		reflect.TypeOf(zoo.Leaf{}), reflect.TypeOf(&zoo.Node{}), reflect.TypeOf(zoo.Defs2{}), &zoo.MutA{}, zoo.Wide{},
 		reflect.TypeOf(zoo.BadTop{}), reflect.TypeOf(zoo.Bad{}), &zoo.BadTop3{}, // rejected definitions
 		reflect.TypeOf(0), reflect.TypeOf(""), 5, "x", nil, reflect.TypeOf([]int{}), // not structs
+		c17PtrPtr(), reflect.TypeOf(c17PtrPtr()), new(int), []zoo.Leaf{{}}, map[string]*zoo.Leaf{}, &[]*zoo.Leaf{}, reflect.TypeOf(&[]*zoo.Leaf{}), // arguments the codec rejects
 	}
 	for _, t := range targets {
 		if err := frugal.Pretouch(t, opts[:r.Intn(len(opts)+1)]...); err != nil {
 			res.PretouchErr++
 		}
 	}
+}
+
+// c17PtrPtr is a **struct: an argument (and a Pretouch target) the codec does not accept.
+func c17PtrPtr() interface{} {
+	l := &zoo.Leaf{A: 1}
+	return &l
 }
 
 // RunSubC17 runs inside the child: spec = "c17|seed|items|placement".
@@ -292,7 +299,7 @@ func RunSubC17(spec string) {
 		}
 	}
 	// rejected definitions must stay rejected whatever Pretouch was told
-	for _, bad := range []interface{}{&zoo.BadTop{}, &zoo.BadTop2{}, &zoo.Bad{}, &zoo.BadTop3{}} {
+	for _, bad := range []interface{}{&zoo.BadTop{}, &zoo.BadTop2{}, &zoo.Bad{}, &zoo.BadTop3{}, c17PtrPtr(), new(int), []zoo.Leaf{{}}, map[string]*zoo.Leaf{}, &[]*zoo.Leaf{}} {
 		er := fEncode(make([]byte, 64), bad)
 		dr := fDecode([]byte{0}, bad)
 		sz := fSize(bad)
